@@ -765,7 +765,7 @@ impl Ranges {
         locale: &Key,
         key_path: &KeyPath,
     ) -> Result<ParsedValue> {
-        if let Some(count_arg) = args.get("var_count") {
+        if let Some(count_arg) = args.get(&*self.count_key.name) {
             self.populate_with_count_arg(count_arg, args, foreign_key, locale, key_path)
         } else {
             self.populate_with_new_key(self.count_key.clone(), args, foreign_key, locale, key_path)
